@@ -124,6 +124,7 @@ type Exec struct {
 	Data     map[string]interface{}
 	TraceLog []string
 	abortOps int
+	NoReplay bool   // the verdict depends on process-global allocator/pool state and cannot be re-validated in-process
 	KeyTag   string // prepended to the key of any violation of this execution (scenario context that identifies a finding)
 
 	objs objTable
@@ -399,6 +400,15 @@ func (x *Exec) beginAbort() {
 		if AbortHook != nil {
 			AbortHook(x)
 		}
+	}
+}
+
+// NoReplay marks the current execution's verdict as not re-validatable by in-process replay.
+//
+//go:norace
+func NoReplay() {
+	if cur != nil {
+		cur.NoReplay = true
 	}
 }
 
